@@ -170,6 +170,7 @@ func genC04Verify(rt *rapid.T) (c04Verify, bool) {
 // ---- (ii)+(iii) sign, verify, tamper ----------------------------------------
 
 type c04Sign struct {
+	Start    *bop  `json:"start,omitempty"` // nil: built from scratch; else decoded first (possibly with trailing bytes)
 	Before   []bop `json:"before"`
 	Sign     bop   `json:"sign"`
 	After    []bop `json:"after"`
@@ -178,7 +179,7 @@ type c04Sign struct {
 }
 
 func buildSigned(c c04Sign) (*builder, error) {
-	b, err := startBuilder(bop{Kind: "start-build", Sub: c.Before})
+	b, err := startThenApply(c.Start, c.Before)
 	if err != nil {
 		return nil, err
 	}
@@ -304,6 +305,7 @@ func genC04Sign(rt *rapid.T) c04Sign {
 			c.Before = append(c.Before, sanitizeSeal(genAttrOp(rt, false, 60), true))
 		}
 	}
+	c.Start = genDecodedStart(rt)
 	c.Sign = bop{Kind: rapid.SampledFrom([]string{"mi", "mi", "mishort", "milong"}).Draw(rt, "signKind")}
 	switch c.Sign.Kind {
 	case "mi":
